@@ -55,6 +55,10 @@ func subscribeMalformed(m *model.Packet) bool {
 }
 
 func checkC17(c caseC17) (sig, msg string) {
+	guard.SetCurrent(func() []byte {
+		return mustJSON(vf.Failure{Property: "C17", Kind: "hang", Case: mustJSON(c), Signature: "hang", Message: "a library call made for this case did not return"})
+	})
+	defer guard.SetCurrent(nil)
 	m, err := unpackModel(c.ModelGob)
 	if err != nil {
 		return "harness", "harness: " + err.Error()
